@@ -378,5 +378,15 @@ func (a *SimApp) others(proto string, m map[string]string) []interface{} {
 	if o("Listen") {
 		out = append(out, func(c context.Context, v vocab.ActivityStreamsListen) error { return a.cb(proto, "other", "Listen", v) })
 	}
+	// callbacks for types the library has no default behaviour for (they must not disturb the defaults of other types)
+	if o("Ignore") {
+		out = append(out, func(c context.Context, v vocab.ActivityStreamsIgnore) error { return a.cb(proto, "other", "Ignore", v) })
+	}
+	if o("Offer") {
+		out = append(out, func(c context.Context, v vocab.ActivityStreamsOffer) error { return a.cb(proto, "other", "Offer", v) })
+	}
+	if o("Activity") {
+		out = append(out, func(c context.Context, v vocab.ActivityStreamsActivity) error { return a.cb(proto, "other", "Activity", v) })
+	}
 	return out
 }
